@@ -35,6 +35,20 @@ from .exceptions import MalformedRangeHeader, RangeNotSatisfiable
 from .typing import Literal, ServerSentEvent
 
 
+HOP_BY_HOP_HEADERS = frozenset(
+    (
+        "connection",
+        "keep-alive",
+        "proxy-authenticate",
+        "proxy-authorization",
+        "te",
+        "trailers",
+        "transfer-encoding",
+        "upgrade",
+    )
+)
+
+
 @mypyc_attr(allow_interpreted_subclasses=True)
 class BaseResponse:
     def __init__(
@@ -118,8 +132,13 @@ class BaseResponse:
                 *((b"set-cookie", bytes(cookie)) for cookie in self.cookies),
             ]
         else:
+            # the WSGI side: hop-by-hop headers are the server's business (PEP 3333)
             return [
-                *self.headers.items(),
+                *(
+                    (key, value)
+                    for key, value in self.headers.items()
+                    if key not in HOP_BY_HOP_HEADERS
+                ),
                 *(("set-cookie", str(cookie)) for cookie in self.cookies),
             ]
 
